@@ -148,7 +148,7 @@ def _media(ctx, i, kind, ncodecs, extras):
         m.rtp = RTCRtpParameters(codecs=codecs)
         m.direction = pick(ctx, tag + "direction", ["sendrecv", "sendonly", "recvonly", "inactive"])
         m.msid = _tok(ctx, tag + "stream") + " " + _tok(ctx, tag + "track")
-        m.rtcp_host = "0.0.0.0"
+        m.rtcp_host = pick(ctx, tag + "rtcp_host", ["0.0.0.0", "2001:0db8::0001"])
         m.rtcp_port = ctx.int(tag + "rtcp_port", 0, U16)
         m.rtcp_mux = True
         if extras:
@@ -159,7 +159,7 @@ def _media(ctx, i, kind, ncodecs, extras):
             m.ssrc = [SsrcDescription(ssrc=s1, cname=cname), SsrcDescription(ssrc=s2, cname=cname)]
             m.ssrc_group = [GroupDescription(semantic="FID", items=[s1, s2])]
     m.rtp.muxId = _tok(ctx, tag + "mid", 1)
-    m.host = pick(ctx, tag + "host", [None, "192.168.0.5"]) if extras else None
+    m.host = pick(ctx, tag + "host", [None, "192.168.0.5", "2001:DB8:0:0:0:0:0:1"]) if extras else None  # (a legal, non-canonical IPv6 spelling must come back as written)
     m.ice = RTCIceParameters(usernameFragment=_tok(ctx, tag + "ufrag"), password=_tok(ctx, tag + "pwd"))
     m.ice_options = "trickle" if extras else None
     if extras:
